@@ -63,7 +63,7 @@ PLAN = {
              "slot leaves the claimed slot RxBusy until the requester's timeout (see C06-U2)",
     ),
     "C06": dict(
-        verus=["slot_protocol"], kani=["slots"], assumptions=['virtual clock: embassy_time_driver::now / schedule_wake and timer_factory::timer are stubbed; real time is not modelled', 'known findings C06-U1..U5 are suppressed by exact obligation key only'], level="proof",
+        verus=["slot_protocol", "created_frame", "group_cycle"], kani=["slots"], assumptions=['virtual clock: embassy_time_driver::now / schedule_wake and timer_factory::timer are stubbed; real time is not modelled', 'known findings C06-U1..U5 are suppressed by exact obligation key only'], level="proof",
         claim="ReceiveFrameFut::poll decision table for all 8 slot states x deadline passed/not x every retry count under a virtual clock, and Drop: "
               "RxDone wins, expired & 0 retries -> Timeout(Pdu), retry re-arms and leaves buffer+length untouched (byte-identical retransmission), "
               "never Ok unless RxDone (Kani, loop-free, complete); send_blocking outcome table; the five (state, transition) pairs that are unsafe "
